@@ -117,6 +117,9 @@ def run(facts, chk, tier, only=None):
                    'pair j = complement of pair n-1-j, zero above 2n bits, for every n in 1..%d' % (w // 2), evals=w // 2,
                    sample=dict(fn='rev_comp', width=w, sizes=w // 2))
     chk.floor('C16', 'configurations', nconf, 88)
+    # sliding = from scratch also needs every window next to an N / the record end to be produced: guard tightness
+    from . import c01
+    chk.guard('C16.window', 'C16.window:run', lambda: c01.check_guards(facts, chk, 'C16.window'))
 
 
 def one_config(facts, wname, w, k, rc, H, RH):
